@@ -474,6 +474,7 @@ def check(pid, tier, seed):
         mc = mc_stage(pid, tier, seed, key)
         states = sum(r["states"] for r in mc)
         trans = sum(r["transitions"] for r in mc)
+        extra_states = 0
         for r in mc:
             if r["expect"] == "ok" and not r["ok"]:
                 if r.get("timeout"):
@@ -500,7 +501,9 @@ def check(pid, tier, seed):
         if extra:
             er = extra(tier, seed, key, sys.modules[__name__])
             viols += er.get("viols", [])
-            cov.update(er.get("coverage", {}))
+            cov.update({k: v for k, v in er.get("coverage", {}).items() if k not in ("states", "transitions")})
+            states += er.get("coverage", {}).get("states", 0)
+            trans += er.get("coverage", {}).get("transitions", 0)
             traces += er.get("traces", 0)
             if er.get("samples"):
                 samples += er["samples"]
@@ -518,7 +521,7 @@ def check(pid, tier, seed):
                 printed.add(k["key"])
                 print("KNOWN-FINDING: property=%s %s (key=%s)" % (pid, k["text"] or v["why"], k["key"]))
         wall = time.time() - t0
-        level = spec["level"] if mc or spec["level"] not in ("model_checking",) else "exploration"
+        level = spec["level"] if (mc or states > 0) or spec["level"] not in ("model_checking",) else "exploration"
         coverage = {
             "states": states, "transitions": trans, "traces_validated_against_impl": traces,
             "evaluations": max(1, traces), "distinct_nontrivial": nt[1], "distinct_executions": nt[0],
